@@ -1,6 +1,143 @@
 import TabulaModel.Util
-namespace Tabula.C10H
+import TabulaModel.Model.PageSel
+import TabulaModel.Model.Builder
+/-
+Line protocol of C10.
 
-def handle (_op : String) (_args : List String) : String := "bad-op"
+  calls (one token each): P<i.j.k> | P | R<s>.<e> | H | F | B | J | C | L
+  c10.psel <n> <call>*                 -> ok <i,j,k|-> | err
+  c10.text <hex,hex,…|0> <call>*       -> ok <hex> | err      (per-page texts; 0 = no pages)
+  c10.frag <p;p;…|0> <call>*           -> ok <hex.hex…|~> | err  (p = hex.hex… | ~ for a page without fragments)
+  c10.doc  <n> <call>*                 -> ok <number>@<source>,… | err
+  c10.bld  <f|r>,<openOk 0|1>,<n|x> <op>*   ops: d<i>:<call> t<i> g<i> u<i> k<i> c<i> m<i> x<i>
+      -> <res>/<fd> … | <pages>;<HFCLJ>;<err owns opened> …
+-/
+namespace Tabula.C10H
+open Tabula Tabula.PageSel Tabula.Builder
+
+def parseInts (s : String) : Option (List Int) :=
+  if s == "" then some [] else (s.splitOn ".").mapM (·.toInt?)
+
+def parseCall (s : String) : Option BCall :=
+  match s.toList with
+  | 'P' :: rest => (parseInts (String.ofList rest)).map BCall.pages
+  | 'R' :: rest =>
+    match parseInts (String.ofList rest) with
+    | some [a, b] => some (.pageRange a b)
+    | _ => none
+  | ['H'] => some .excludeHeaders
+  | ['F'] => some .excludeFooters
+  | ['B'] => some .excludeHeadersAndFooters
+  | ['J'] => some .joinParagraphs
+  | ['C'] => some .byColumn
+  | ['L'] => some .preserveLayout
+  | _ => none
+
+/-- the chain `Open(f).c₁.c₂…` as one extractor value -/
+def chain (cs : List BCall) : Ext := cs.foldl Ext.derive {}
+
+def natList (l : List Nat) : String :=
+  if l.isEmpty then "-" else ",".intercalate (l.map toString)
+
+def hexS (s : Str) : String := hex (s.map UInt8.ofNat)
+def unhexS (s : String) : Option Str := (unhex s).map fun b => b.map (·.toNat)
+
+def lookup {α : Type} (l : List α) (k : Nat) : Except E α :=
+  match l[k]? with
+  | some a => .ok a
+  | none => .error .page
+
+/-- selection of a chained extractor: builder error first, then resolvePages -/
+def withSel {α : Type} (cs : List String) (f : List Int → Except E α) (show_ : α → String) : String :=
+  match cs.mapM parseCall with
+  | none => "bad-op"
+  | some calls =>
+    let e := chain calls
+    if e.err then "err"
+    else match f e.opts.pages with
+      | .ok a => "ok " ++ show_ a
+      | .error _ => "err"
+
+def parseTexts (s : String) : Option (List Str) :=
+  if s == "0" then some [] else (s.splitOn ",").mapM unhexS
+
+def parseFragPage (s : String) : Option (List Str) :=
+  if s == "~" then some [] else (s.splitOn ".").mapM unhexS
+
+def parseFragPages (s : String) : Option (List (List Str)) :=
+  if s == "0" then some [] else (s.splitOn ";").mapM parseFragPage
+
+def showFrags (l : List Str) : String :=
+  if l.isEmpty then "~" else ".".intercalate (l.map hexS)
+
+def showDoc (d : List MPage) : String :=
+  ",".intercalate (d.map fun p => s!"{p.number}@{p.source}")
+
+def parseWorld (s : String) : Option (Store × World) :=
+  match s.splitOn "," with
+  | [b, o, n] => do
+    let base ← if b == "f" then some openBase else if b == "r" then some readerBase else none
+    let ok ← if o == "1" then some true else if o == "0" then some false else none
+    let pc ← if n == "x" then some none else n.toNat?.map some
+    pure (base, ⟨ok, pc⟩)
+  | _ => none
+
+def parseOp (s : String) : Option Op :=
+  match s.toList with
+  | 'd' :: rest =>
+    match (String.ofList rest).splitOn ":" with
+    | [i, c] => do pure (.derive (← i.toNat?) (← parseCall c))
+    | _ => none
+  | 't' :: rest => (String.ofList rest).toNat?.map (Op.term · .text)
+  | 'g' :: rest => (String.ofList rest).toNat?.map (Op.term · .fragments)
+  | 'u' :: rest => (String.ofList rest).toNat?.map (Op.term · .document)
+  | 'k' :: rest => (String.ofList rest).toNat?.map (Op.term · .chunks)
+  | 'c' :: rest => (String.ofList rest).toNat?.map (Op.nonTerm · .pageCount)
+  | 'm' :: rest => (String.ofList rest).toNat?.map (Op.nonTerm · .isMultiColumn)
+  | 'x' :: rest => (String.ofList rest).toNat?.map Op.close
+  | _ => none
+
+def showRes : Res → String
+  | .none => "-"
+  | .closed => "closed"
+  | .count n => s!"n{n}"
+  | .flag => "flag"
+  | .pages l => "p" ++ natList l
+  | .err => "err"
+  | .bad => "bad"
+
+def bit (b : Bool) : String := if b then "1" else "0"
+
+def showExt (e : Ext) : String :=
+  let ps := if e.opts.pages.isEmpty then "-" else ".".intercalate (e.opts.pages.map toString)
+  let o := e.opts
+  s!"{ps};{bit o.excludeHeaders}{bit o.excludeFooters}{bit o.byColumn}{bit o.preserveLayout}{bit o.joinParagraphs};{bit e.err}{bit e.owns}{bit e.opened}"
+
+def handle (op : String) (args : List String) : String :=
+  match op, args with
+  | "c10.psel", n :: cs =>
+    match n.toNat? with
+    | some n => withSel cs (resolvePages · n) natList
+    | none => "bad-op"
+  | "c10.text", ts :: cs =>
+    match parseTexts ts with
+    | some texts => withSel cs (extractText (lookup texts) · texts.length) hexS
+    | none => "bad-op"
+  | "c10.frag", ps :: cs =>
+    match parseFragPages ps with
+    | some pages => withSel cs (extractFragments (lookup pages) · pages.length) showFrags
+    | none => "bad-op"
+  | "c10.doc", n :: cs =>
+    match n.toNat? with
+    | some n => withSel cs (extractDocument · n) showDoc
+    | none => "bad-op"
+  | "c10.bld", w :: ops =>
+    match parseWorld w, ops.mapM parseOp with
+    | some (s0, w), some ops =>
+      let (s, rs) := run w s0 ops
+      " ".intercalate (rs.map fun (r, fd) => s!"{showRes r}/{fd}") ++ " | " ++
+        " ".intercalate (s.exts.map showExt)
+    | _, _ => "bad-op"
+  | _, _ => "bad-op"
 
 end Tabula.C10H
